@@ -783,6 +783,7 @@ def families(tier, want=None):
         ('LL-11-11', L(L(I(2)), L(I())), L(L(I()), L(I(2)))),
         ('LL-2-2', L(L(I(), I(2))), L(L(I(2), I()))),
         ('LL-21-2', L(L(I(), I()), L(I())), L(L(I(), I(2)))),
+        ('LL-2-12', L(L(I(), I(2))), L(L(I()), L(I(2), I()))),    # one nested list meets partners of different and of equal length
         ('LLi-1i-i1', L(L(I()), I(2)), L(I(2), L(I()))),
         ('LiL', L(I(), L(I(), I(2))), L(I(), L(I(2), I()))),      # last cell of the outer list edit is itself a list edit
         ('LiL11', L(I(), L(I(), I())), L(I(), L(I(), I()))),      # ... with equal-size members (the D5 shape)
@@ -806,7 +807,9 @@ def families(tier, want=None):
         for st in ['auto', 'none', 'match']:
             if st == 'match' and name not in ('DD2', 'DL2', 'LL-2-2'):
                 continue
-            for lm in (['on', 'off'] if 'L' in name else ['on']):
+            for lm in (['on', 'off', 'same'] if 'L' in name else ['on']):
+                if lm == 'same' and st != 'auto':
+                    continue
                 out.append((name, A, B_, [st], [lm], 20))
     # cross-kind and scalar kinds (Replace / kind-changing matches)
     cross = [
@@ -859,6 +862,8 @@ KNOWN_DUP_JOBS = [
     dict(fam='mset-dups-33', A=('mset', ileaves(3, 'd'), 'dups'), B=('mset', ileaves(3, 'd'), 'dups'), weight=50, path_wall_s=6, replay_wall=6, region_job=True),
     dict(fam='mset-dups-31', A=('mset', ileaves(3, 'd'), 'dups'), B=('mset', ileaves(1, 'd'), 'dups'), weight=50, path_wall_s=6, replay_wall=6, region_job=True),
     dict(fam='mset-dups-13', A=('mset', ileaves(1, 'd'), 'dups'), B=('mset', ileaves(3, 'd'), 'dups'), weight=50, path_wall_s=6, replay_wall=6, region_job=True),
+    dict(fam='mset-dups-s21', A=('mset', [('s', 2), ('s', 2)], 'dups'), B=('mset', [('s', 2)], 'dups'), weight=50, path_wall_s=6, replay_wall=6, region_job=True, alpha=2),
+    dict(fam='mset-dups-s12', A=('mset', [('s', 2)], 'dups'), B=('mset', [('s', 2), ('s', 2)], 'dups'), weight=50, path_wall_s=6, replay_wall=6, region_job=True, alpha=2),
     dict(fam='mset-dups-L', A=('list', [('i', 1), ('mset', ileaves(3, 'd'), 'dups')]), B=('list', [('i', 1), ('mset', ileaves(2, 'd'), 'dups')]), weight=50, path_wall_s=6, replay_wall=6, region_job=True),
 ]
 
@@ -922,8 +927,8 @@ TREE_FILES = ['graphtage/levenshtein.py', 'graphtage/multiset.py', 'graphtage/se
 
 def tree_bounds_text(tier):
     if tier == 'quick':
-        return ("lists n,m<=3 x 3 list modes; multisets n+m<=5; mappings n,m<=3 x {none, auto (n+m<=4), match (n+m<=4)}; 14 depth-2 "
-                "nestings (list/dict of list/dict) x {auto,none} (+match for three) x list on/off; 13 cross-kind pairs (null/bool/str/"
+        return ("lists n,m<=3 x 3 list modes; multisets n+m<=5; mappings n,m<=3 x {none, auto (n+m<=4), match (n+m<=4)}; 15 depth-2 "
+                "nestings (list/dict of list/dict) x {auto,none} (+match for three) x list on/off (+same under auto); 13 cross-kind pairs (null/bool/str/"
                 "int/list/dict/multiset); plist wrappers; leaf lengths mixed 1/2; value alphabet 3, key alphabet = number of keys "
                 "of both mappings (every shared/unshared key pattern is realisable); every leaf value and key symbolic")
     return ("lists n,m<=4 (n+m<=6) x 3 list modes x 3 length patterns; multisets n+m<=6; mappings n,m<=3 x {none, auto (n+m<=5), match "
